@@ -38,7 +38,9 @@ def decode (bitrate : Nat) (bytes : List Nat) : Except DecErr (Option (List Nat)
   else if bytes.length < 8 then .ok none
   else
     let off := ofBeBytes ((bytes.drop 4).take 4)
-    if off < 24 then .error .smallOffset
+    -- the offset is examined by the next call, which first needs a non-empty window
+    if bytes.length < 9 then .ok none
+    else if off < 24 then .error .smallOffset
     else if bytes.length < off then .ok none
     else
       let head := (bytes.drop 8).take (off - 8)
